@@ -39,6 +39,7 @@ structure Handler where
   next : Nat := 0              -- serial of the next successful open
   dstOpen : List Nat := []     -- serials whose destination socket is still open
   max : Nat := 0               -- cfg.MaxConnections (0 = unlimited)
+  wclosed : List Nat := []     -- serials whose destination write side was shut (FIN_WRITE from the client)
   deriving Repr
 
 inductive Ev
@@ -94,7 +95,9 @@ def data (h : Handler) (id fromPeer serial : Nat) : Handler × List Ev :=
   | none => (h, [])
   | some c =>
     if !h.dstOpen.contains c.serial then (h, [])           -- ac.IsClosed()
-    else if c.serial = serial then (h, [.dst c.serial])
+    else if c.serial = serial then
+      (if h.wclosed.contains c.serial then h.closeConn id fromPeer   -- write after CloseWrite fails
+       else (h, [.dst c.serial]))
     else h.closeConn id fromPeer                           -- decrypt error
 
 /-- `closeRecord(ac)`: tear down exactly the record `c` — only if it is still the one stored under
